@@ -40,6 +40,8 @@ def readers():
     for c in _C12.read_batch_slice + _C12.read_batch_idx + _C12.read_batch:
         out.append(clone(c, callees=getattr(c, "callees", None) or _C12.CALLEES, lib=getattr(c, "lib", None) or _C12.LIB, hooks=getattr(_C12, "HOOKS", None), home="c12"))
     out.append(clone(_C12.header_units, hooks=getattr(_C12, "HOOKS", None), home="c12"))
+    for c in _C12.contains_column:
+        out.append(clone(c, hooks=getattr(_C12, "HOOKS", None), home="c12"))
     return out
 
 
